@@ -330,6 +330,27 @@ func handleLMove(params internal.HandlerFuncParams) ([]byte, error) {
 		return nil, errors.New("both source and destination must be lists")
 	}
 
+	if len(sourceList) == 0 {
+		return []byte("$-1\r\n"), nil
+	}
+
+	if source == destination {
+		// The element is popped from and pushed back onto the same list.
+		element, rest := sourceList[0], append([]string{}, sourceList[1:]...)
+		if whereFrom == "right" {
+			element, rest = sourceList[len(sourceList)-1], append([]string{}, sourceList[:len(sourceList)-1]...)
+		}
+		if whereTo == "left" {
+			rest = append([]string{element}, rest...)
+		} else {
+			rest = append(rest, element)
+		}
+		if err = params.SetValues(params.Context, map[string]interface{}{source: rest}); err != nil {
+			return nil, err
+		}
+		return []byte(constants.OkResponse), nil
+	}
+
 	switch whereFrom {
 	case "left":
 		err = params.SetValues(params.Context, map[string]interface{}{
